@@ -14,7 +14,7 @@ var vSmokePrograms = []string{
 	"func f(x) { return x * 2 }; f(21)",
 	"`x{1+1}y{% 2 %}z`",
 	"&c = 1 + 2; c",
-	"'abc'[1] + \"x\" + str(12) + int('5')",
+	"'abc'[1] + \"x\" + toStr(12) + toStr(toInt('5'))",
 	"ceil(1.5) + floor(2.5) + round(2.4) + abs(-2)",
 	"1 + ",
 	"[1,2,3][0:2]",
